@@ -7,7 +7,8 @@ TLC (mc)  : every interleaving for <= 3 workers, <= 4 rows, rows more or fewer t
             results aligned with the input, the failing row (and only it) is a NaN placeholder, never more rows in
             progress than workers; the implementation-shaped sequential mode (one shared model, results keep a
             reference, lazy fluxes) must VIOLATE RowIndependent
-spec->code: TLC (-simulate, seeded) emits configurations: kind x columns x rows x failing row and failure mode x
+spec->code: TLC (-simulate, seeded) emits configurations: kind x columns (k, k_in, initial x and, for the variant with an
+            assignment-defined parameter q, the column q itself) x rows x failing row and failure mode x
             model variant x mode x workers {1,2,3,16} x durations, with the completion order the workers produce
             and the expected value table of every row; each is run through the real scan.* / mc.* with a logging,
             delaying worker passed through the public worker= argument; per row, .variables and .fluxes are
@@ -84,7 +85,7 @@ def spec_crosscheck(sc: dict) -> None:
         if e["t"] == "nan":
             continue
         vals = {**sk.ORIGINAL, **{sk.COLMAP[c]: float(sc["vals"][i - 1][c]) for c in cfg["cols"]}}
-        ke = sk.kineff(cfg["variant"], vals["k_in"], vals["x"])
+        ke = sk.kineff(cfg["variant"], vals["k_in"], vals["x"], vals.get("q"))
         if (e["traj"]["x0"], e["traj"]["k"], e["traj"]["kineff"], e["fl"]["k"], e["fl"]["kineff"]) != \
                 (vals["x"], vals["k"], ke, vals["k"], ke):
             raise MachineryError(f"spec/renderer cross-check failed for row {i}: {e} vs {vals}")
@@ -147,11 +148,14 @@ def run_case(sc: dict) -> dict:
     evs = [json.loads(ln) for ln in open(log)] if os.path.exists(log) else []
     starts = [e for e in evs if e["e"] == "start"]
     ends = {e["i"]: e["t"] for e in evs if e["e"] == "end"}
-    if sorted(e["i"] for e in starts) != list(range(1, n + 1)) or sorted(ends) != list(range(1, n + 1)):
-        out.update(status="mismatch", detail={"what": "rows started/finished are not exactly the input rows",
-                                              "started": [e["i"] for e in starts], "finished": sorted(ends)})
-        return out
-    if cfg["mode"] == "par":
+    mis: list[dict] = []
+    logged_ok = sorted(e["i"] for e in starts) == list(range(1, n + 1)) and sorted(ends) == list(range(1, n + 1))
+    if not logged_ok:
+        # row 0 = a worker call whose model carries the values of no input row; the rows are still judged below,
+        # only the schedule cannot be validated
+        mis.append({"what": "worker calls do not correspond one-to-one to the input rows (0 = model carries no row's values)",
+                    "started": [e["i"] for e in starts], "finished": sorted(ends)})
+    if cfg["mode"] == "par" and logged_ok:
         for i in range(1, n + 1):
             for j in range(1, n + 1):
                 if sc["ftick"][i - 1] < sc["ftick"][j - 1] and not ends[i] < ends[j]:
@@ -182,7 +186,6 @@ def run_case(sc: dict) -> dict:
         raise MachineryError(f"reference run of the unmodified model failed: {ref}")
     inners = sk.INNER if kind == "mc.scan_steady_state" else [None]
     evals = {i: observed_eval(vs[i - 1], fs[i - 1]) for i in range(1, n + 1)} if kind in EVAL_KINDS else {}
-    mis: list[dict] = []
     for i in range(1, n + 1):
         obs_v, obs_f = vs[i - 1], fs[i - 1]
         row_bad = False
@@ -245,7 +248,7 @@ def run_case(sc: dict) -> dict:
         for i in sc["eorder"]:
             tr.append({"e": "eval", "i": i, "w": 0, "order": [], **{"t": "", "k": 0, "kineff": 0, **evals[i]}})
         tr.append({"e": "fin", "i": 0, "w": 0, "order": [], "t": "", "k": 0, "kineff": 0})
-    out["trace"] = tr
+    out["trace"] = tr if logged_ok else None
     if mis:
         out.update(status="mismatch", detail=mis[0], more=mis[1:])
     return out
@@ -265,7 +268,8 @@ def classify(sc: dict, detail: dict) -> str | None:
     if what == "failing row" and detail.get("table") == "fluxes" and detail.get("non_nan_cols") == ["v_in"]:
         return "placeholder-constant-flux"                # the only rate that does not depend on a variable
     if what.startswith("row differs") or detail.get("tlc") == "eval":
-        if cfg["mode"] == "seq" and "x" in cfg["cols"] and cfg["variant"] == "ia" and detail.get("row") != cfg["fail"]:
+        if cfg["mode"] == "seq" and "x" in cfg["cols"] and "q" not in cfg["cols"] and cfg["variant"] == "ia" \
+                and detail.get("row") != cfg["fail"]:
             return "sequential-initial-value-dependence"
     return None
 
